@@ -635,7 +635,40 @@ func observe(c caseIn) string {
 	return hx.L("o", hx.I(int64(atomic.LoadInt32(&hc.calls))), out)
 }
 
+// pairCase exercises the variadic loop of Response.DecodeProp directly (no public client
+// method passes more than one value): the body is decoded as a MultiStatus and
+// DecodeProp(&getETag, &getLastModified) is called on every response.
+//
+//	(p <body>) (d <xml>) (o - | (<outcome>...))     "-" = the body is not a MultiStatus
+func pairCase(body string) string {
+	var ms verifhook.MultiStatus
+	obs := "-"
+	if err := xml.NewDecoder(strings.NewReader(body)).Decode(&ms); err == nil {
+		var outs []string
+		for i := range ms.Responses {
+			outs = append(outs, func() (out string) {
+				defer func() {
+					if recover() != nil {
+						out = "(panic)"
+					}
+				}()
+				var e verifhook.GetETag
+				var m verifhook.GetLastModified
+				if err := ms.Responses[i].DecodeProp(&e, &m); err != nil {
+					return projErr(err)
+				}
+				return "(ok)"
+			}())
+		}
+		obs = hx.L(outs...)
+	}
+	return hx.L("p", hx.S(body)) + " " + hx.L("d", xmlTree(body)) + " " + hx.L("o", obs)
+}
+
 func exec(c caseIn) string {
+	if c.method == "DecodePropPair" {
+		return pairCase(c.r.body)
+	}
 	return inputSx(c) + " " + derived(&c.r) + " " + observe(c)
 }
 
@@ -649,6 +682,10 @@ func main() {
 	if *replay != "" {
 		for _, l := range hx.ReadLines(*replay) {
 			items := hx.MustParse(l)
+			if items[0].Head() == "p" {
+				sink.Put(pairCase(items[0].Args()[0].Str()))
+				continue
+			}
 			sink.Put(exec(parseInput(items[0])))
 		}
 		return
